@@ -39,6 +39,8 @@ def main():
         base, vmap, args = '/tmp/wt2', {'a': 'c', 'b': 'd'}, args[1:]
     if args and args[0] == '--round3':
         base, vmap, args = '/tmp/wt4', {'a': 'e', 'b': 'f'}, args[1:]
+    if args and args[0] == '--round4':
+        base, vmap, args = '/tmp/wt5', {'a': 'g', 'b': 'h'}, args[1:]
     ids = args or ['C%02d' % i for i in range(1, 17)]
     for pid in ids:
         for v0 in ('a', 'b'):
